@@ -29,8 +29,18 @@ impl Shards {
         self.shard_count = shard_count;
         self.shard_len_64 = shard_len_64;
 
+        #[cfg(feature = "verif-hooks")]
+        let verif_old_len = self.data.len();
+
         self.data
             .resize(self.shard_count * self.shard_len_64, [0; 64]);
+
+        // Blocks that survive a resize keep their old contents.
+        #[cfg(feature = "verif-hooks")]
+        {
+            let stale = std::cmp::min(verif_old_len, self.data.len());
+            crate::verif_hooks::poison(&mut self.data[..stale]);
+        }
     }
 
     pub(crate) fn insert(&mut self, index: usize, shard: &[u8]) {
@@ -69,6 +79,23 @@ impl Shards {
             let last_chunk = &mut self[idx][whole_chunk_count];
             last_chunk.copy_within(32..32 + tail_len / 2, tail_len / 2);
         }
+    }
+}
+
+#[cfg(feature = "verif-hooks")]
+impl Shards {
+    pub(crate) fn verif_view(&self) -> crate::verif_hooks::ShardsView {
+        crate::verif_hooks::ShardsView {
+            shard_count: self.shard_count,
+            shard_len_64: self.shard_len_64,
+            data_ptr: self.data.as_ptr() as usize,
+            data_len: self.data.len(),
+            data_capacity: self.data.capacity(),
+        }
+    }
+
+    pub(crate) fn verif_data(&self) -> &[[u8; 64]] {
+        &self.data
     }
 }
 
